@@ -208,6 +208,7 @@ class KPRun:
         self.env_for_pending = None
         self.cpr_broken = []
         self.cpr_calls = []
+        self.done_pops = []
         self.in_handler = False
         self.watchdog_s = 10
         self.raise_info = None
@@ -226,9 +227,11 @@ class KPRun:
         return [getattr(getattr(h, "handler", None), "_c04i", -7), [self.RK.get(k.key, -7) for k in p._previous_key_sequence]]
 
     def check_cpr_frame(self):
-        """a delivered cursor position report must have left key_buffer and the previous-key bookkeeping alone"""
+        """a delivered cursor position report must have left the pending keys (key_buffer) alone - that much is the
+        property text ("every key ... still pending, in input order"); the previous-key bookkeeping, is_repeat and
+        the repetition argument are compared through the model only (C04_cpr_delivery), not demanded here"""
         if self.cpr_snap is not None:
-            now = ([self.RK.get(k.key, -7) for k in self.p.key_buffer], self.prev_now())
+            now = [self.RK.get(k.key, -7) for k in self.p.key_buffer]
             if now != self.cpr_snap:
                 self.cpr_broken.append({"before": self.cpr_snap, "after": now})
             self.cpr_snap = None
@@ -238,10 +241,12 @@ class KPRun:
         self.check_cpr_frame()
         self.sync(len(self.p.key_buffer))     # the generator is at `yield`: settle the drops of the previous send
         self.popped.append(k)
+        if k != 6 and self.app.is_done:
+            self.done_pops.append(k)      # a typed key popped although the application is finished
         self.events.append([7] if taken else [4, k])
         if k == 6:
             # a cursor position report is not a typed key: it never enters the key buffer
-            self.cpr_snap = ([self.RK.get(x.key, -7) for x in self.p.key_buffer], self.prev_now())
+            self.cpr_snap = [self.RK.get(x.key, -7) for x in self.p.key_buffer]
             return
         self.since_pop = 0
         self.env_for_pending = None
@@ -410,7 +415,7 @@ class KPRun:
             out.append([status, self.events, self.popped, buf, q, envv, 1 if self.app.is_done else 0, self.prev_now()])
             self.op_records.append({"status": status, "events": self.events, "popped": self.popped, "buf": buf,
                                     "queue": q, "env": envv, "calls": self.calls[ncalls0:], "drops": self.drops[ndrops0:], "backs": self.backs[nbacks0:], "done": self.app.is_done, "done0": done0,
-                                    "cpr_calls": self.cpr_calls[ncpr0:], "cpr_broken": list(self.cpr_broken), "env_for_pending": self.env_for_pending,
+                                    "cpr_calls": self.cpr_calls[ncpr0:], "cpr_broken": list(self.cpr_broken), "done_pops": list(self.done_pops), "env_for_pending": self.env_for_pending,
                                     "after_raise": after_raise, "last_flush": self.last_item_flush,
                                     "since_pop": self.since_pop, "stream": list(self.stream),
                                     "accounted": self.accounted, "items": its})
@@ -506,12 +511,15 @@ def kp_oracle(case, recs):
                 return ("handler exception did not leave the processor reset (key_buffer/input_queue not empty)", "exception-reset",
                         {"op": n, "after": r["after_raise"]})
         if r.get("cpr_broken"):
-            return ("a cursor position report changed the key buffer or the previous-key bookkeeping", "cpr-frame", r["cpr_broken"][0])
+            return ("a cursor position report changed the pending keys (key_buffer)", "cpr-frame", r["cpr_broken"][0])
         for c in r.get("cpr_calls", []):
-            act = [i for i, x in ib if x[0] == [6] and feval(x[1], c["env"])]
-            if c["keys"] != [6] or not act or act[-1] != c["i"] or c["is_repeat"] or c["arg_present"]:
-                return ("a cursor position report was not delivered to the last registered active binding bound to exactly (CPRResponse,), "
-                        "with is_repeat False and no repetition argument", "cpr-binding", c)
+            # property text only: the handler that receives the report is the last-registered most specific active exact
+            # match of (CPRResponse,).  (That wildcard bindings never receive one, is_repeat and the repetition argument
+            # are beyond the text: they are in the model, C04_cpr_binding / correspondence.)
+            act = [(i, x) for i, x in ib if b_exact(x, [6]) and feval(x[1], c["env"])]
+            if best_of(act) != c["i"]:
+                return ("a cursor position report was not delivered to the last-registered most specific active match of (CPRResponse,)",
+                        "cpr-binding", c)
         for bk in r["backs"]:
             if not (bk["handed_back"] == bk["buffer"] == bk["pending_in_input_order"]):
                 return ("the application was finished by a handler and the pending keys were not handed back to the input queue "
@@ -523,6 +531,9 @@ def kp_oracle(case, recs):
             if r["queue"][:len(hb)] != hb or r["buf"]:
                 return ("after the application was finished the keys not delivered are not at the front of the input queue, in input order",
                         "hand-back-order", {"op": n, "queue": r["queue"], "expected_front": hb})
+        if r.get("done_pops"):
+            return ("a typed key was popped from the input queue although a handler had already finished the application "
+                    "(it is type-ahead for the next application)", "done-stops", {"op": n, "popped_while_done": r["done_pops"]})
         if r["status"] == 0 and r["done"] and r.get("done0") and any(k != 6 for k in r["popped"]):
             return ("keys were processed although the application was already finished", "done-stops", {"op": n})
         if r["status"] == 0 and not r.get("ext_flip") and not r["done"] and any(k != 6 for k in r["popped"]):
@@ -887,7 +898,7 @@ def rand_keys(rng, alpha=(1, 2, 3, 4), anyp=0.2, maxlen=3):
     return [0 if rng.random() < anyp else rng.choice(alpha) for _ in range(n)]
 
 
-def rand_binding(rng, hid, alpha=(1, 2, 3, 4), acts=True):
+def rand_binding(rng, hid, alpha=(1, 2, 3, 4), acts=True, feed_extra=()):
     f = [0] if rng.random() < 0.45 else rand_f(rng, rng.choice([0, 1, 2, 3]))
     r = rng.random()
     eg = [1] if r < 0.6 else ([0] if r < 0.85 else rand_f(rng, 1))
@@ -902,7 +913,7 @@ def rand_binding(rng, hid, alpha=(1, 2, 3, 4), acts=True):
             elif r < 0.76:
                 al.append([3])
             else:
-                al.append([2, rng.randint(0, 1), [rng.choice(list(alpha) + [-1]) for _ in range(rng.choice([1, 1, 2]))]])
+                al.append([2, rng.randint(0, 1), [rng.choice(list(alpha) + [-1] + list(feed_extra)) for _ in range(rng.choice([1, 1, 2]))]])
     return [rand_keys(rng, alpha), f, eg, 1 if rng.random() < 0.3 else 0, hid, al]
 
 
@@ -940,12 +951,13 @@ def gen_keyproc(chk, dist):
         small = rng.random() < 0.5
         alpha = (1, 2) if small else (1, 2, 3, 4, 5)
         nb = rng.choice([1, 2, 2, 3, 3, 4, 5, 6])
-        bs = [rand_binding(rng, i, alpha) for i in range(nb)]
         cpr = rng.random() < 0.3
+        fx = (6, 6) if cpr else ()       # handlers may feed cursor position reports too
+        bs = [rand_binding(rng, i, alpha, feed_extra=fx) for i in range(nb)]
         if cpr:
             # cursor position reports: bindings on exactly (CPRResponse,), sometimes longer/wildcard ones around
             for j in range(rng.choice([1, 1, 2])):
-                b = rand_binding(rng, len(bs), alpha)
+                b = rand_binding(rng, len(bs), alpha, feed_extra=fx)
                 b[0] = rng.choice([[6], [6], [6], [6, 1], [0]])
                 bs.append(b)
         ops = []
@@ -1250,6 +1262,8 @@ def main(tier):
         "the timeout is the explicit _Flush item; the asyncio timer (_start_timeout) is disabled (timeoutlen=None)",
         "is_global is a constant per binding; SimpleCache eviction (10000/1000 entries) is not modelled; id() reuse after garbage collection (DynamicKeyBindings version) is not modelled",
         "KeyPressEvent.arg/is_repeat, macro recording, undo save points, vi cursor fix-up are outside the model",
+        "app.is_done / event.app.exit() are driven by a hand-made pending asyncio future put on an Application that is never run (harness new_application_run); the real run_async life cycle is not exercised",
+        "cursor position reports: the oracle demands only the property text (pending keys untouched, receiver = last-registered most specific active match); that wildcard bindings never receive a report, is_repeat, the repetition argument and the previous-key bookkeeping are checked against the model only (they rest on the docstring of _handle_cpr_response, not on the property text)",
         "dropped keys are not observable directly: the harness infers them as keys popped that are neither delivered nor pending, positioned by the buffer snapshot each handler takes"]
     return chk.finish()
 
